@@ -500,6 +500,11 @@ func FormatBinaryTime(n int, data []byte) ([]byte, error) {
 
 // AppendBinaryValue encode binary-type value of prepare binary protocol according to type of value
 func AppendBinaryValue(data []byte, fieldType uint8, value interface{}) ([]byte, error) {
+	// NEWDATE is the server-internal twin of DATE and has the same binary encoding
+	if fieldType == TypeNewDate {
+		fieldType = TypeDate
+	}
+
 	// constructor phase
 	var t []byte
 	switch v := value.(type) {
@@ -631,11 +636,14 @@ func AppendBinaryValue(data []byte, fieldType uint8, value interface{}) ([]byte,
 		}
 		data = append(data, t[:8]...)
 		return data, nil
-	case TypeNewDecimal, TypeJSON, TypeString, TypeVarString, TypeVarchar, TypeBit, TypeTinyBlob, TypeMediumBlob, TypeLongBlob, TypeBlob:
+	case TypeNewDecimal, TypeJSON, TypeString, TypeVarString, TypeVarchar, TypeBit, TypeTinyBlob, TypeMediumBlob, TypeLongBlob, TypeBlob,
+		TypeEnum, TypeSet:
+		// sent as length-encoded strings
 		tmp := make([]byte, 0, len(t)+9)
 		data = append(data, AppendLenEncStringBytes(tmp, t)...)
 		return data, nil
-	case TypeEnum, TypeSet, TypeDate, TypeDatetime, TypeDuration, TypeTimestamp, TypeNewDate:
+	case TypeDate, TypeDatetime, TypeDuration, TypeTimestamp:
+		// t already holds the length byte followed by the binary date/time fields
 		data = append(data, t...)
 		return data, nil
 	default:
